@@ -1057,6 +1057,16 @@ class Interp:
         return self.getattr(self.ev(n.value, env), n.attr)
 
     def getattr(self, o, attr):
+        try:
+            return self._getattr(o, attr)
+        except PyExc as e:
+            if self.depth == 0 and e.cls == 'AttributeError':
+                # read by the HARNESS (no interpreted function is active): a contract naming an attribute the object does not have has lost its
+                # anchor (renamed private field) - out of reach; an AttributeError inside the code under contract stays an exception of the code
+                raise Unsupported(f'contract anchor lost: the contract reads attribute {attr!r}, which the object does not have')
+            raise
+
+    def _getattr(self, o, attr):
         if isinstance(o, tuple) and len(o) == 3 and o[0] == 'super':
             _, cls, selfv = o
             mro = selfv.cls.mro() if isinstance(selfv, Obj) and selfv.cls is not None else cls.mro()
